@@ -189,9 +189,8 @@ def gen_tool(g: G):
         doc["requirements"]["ShellCommandRequirement"] = {}
     if env_names:
         env_def = {}
-        # values that need shell quoting (`$`, backtick, `"`, backslash) hit DESIGN F4c: keep them to ~1 tool in 8
-        # so that the rest of the search is not masked by that finding
-        env_hostile = g.p(0.2)
+        # values that need shell quoting (`$`, backtick, `"`, backslash): DESIGN F4c (fixed in /repo by f29fd8d)
+        env_hostile = g.p(0.5)
         for n in env_names:
             form = g.i(0, 3) if env_hostile else g.i(1, 2)
             if form == 0:
